@@ -329,6 +329,29 @@ pub fn run(ctx: &Ctx) {
         }
         ctx.listed("machine-word-integers", "text", "2^k (k = 15..256) and 10^k (k = 9..39) -3..+3, and values between 2^63 and 10^19 (etc.), written plain, signed, with a point, with an exponent: all entry points must accept them digit for digit", cases, check_text);
     }
+    {
+        // every single-byte substitution (all 256 values) at every position of a few short numerals: a digit test written
+        // with a mask or a range accepts bytes next to '0'..'9' that no alphabet of "interesting" characters contains
+        let bases: [&[u8]; 6] = [b"12345", b"1.5", b"-7e3", b"0", b"9_9", b"+.5E-2"];
+        let mut cases = Vec::new();
+        for b in bases {
+            for pos in 0..b.len() {
+                for v in 0..=255u8 {
+                    let mut t = b.to_vec();
+                    t[pos] = v;
+                    cases.push(Text { bytes: t, radix: 10 });
+                }
+            }
+            for pos in 0..=b.len() {
+                for v in 0..=255u8 {
+                    let mut t = b.to_vec();
+                    t.insert(pos, v);
+                    cases.push(Text { bytes: t, radix: 10 });
+                }
+            }
+        }
+        ctx.listed("all-byte-substitutions", "text", "6 short numerals x every position x every byte value 0..255 substituted or inserted (about 13 000 strings)", cases, check_text);
+    }
     let max_digits = t.pick(1000usize, 4000);
     let cases = t.pick(300_000u64, 2_000_000);
     ctx.generated("grammar-numerals", "text", cases, "numerals from the grammar: digits to the tier limit, underscores, optional point, exponent families (small, scale around i64::MAX/MIN, +-2^63, 40-digit, leading zeros)", move || numeral_strategy(max_digits), check_text);
